@@ -46,8 +46,11 @@ def write_evidence(prop, tier, seed, level, coverage, wall, violations, assumpti
         "wall_s": round(wall, 3),
         "violations": int(violations),
     }
-    os.makedirs(os.path.join(VERIF, "evidence"), exist_ok=True)
-    path = os.path.join(VERIF, "evidence", f"{prop}.json")
+    # (runs against a scratch copy of the repository - sensitivity tools - must not
+    # replace the evidence of the real tree)
+    ev_dir = os.environ.get("VERIF_EVIDENCE_DIR") or os.path.join(VERIF, "evidence")
+    os.makedirs(ev_dir, exist_ok=True)
+    path = os.path.join(ev_dir, f"{prop}.json")
     tmp = path + ".tmp"
     with open(tmp, "w") as f:
         json.dump(ev, f, indent=1, sort_keys=True, default=_json_default)
